@@ -16,6 +16,14 @@ class PullBudgetExceeded(Exception):
     pass
 
 
+KIND = ["powers"]   # which source the current case runs on: "powers" = 2,4,8,... (distinct, truthy, no two differences equal);
+#                      "counting" = 1,2,3,... (arithmetic: its differences are constant, its second differences are all zero)
+
+
+def item(i):
+    return 2 ** i if KIND[0] == "powers" else i
+
+
 class Source:
     def __init__(self, budget):
         self.pulls = 0
@@ -27,7 +35,7 @@ class Source:
             if self.pulls >= self.budget:
                 raise PullBudgetExceeded(self.pulls)
             self.pulls += 1
-            yield 2 ** i
+            yield item(i)
             i += 1
 
 
@@ -41,7 +49,7 @@ def infinite(budget):
 def finite(n):
     from vyxal.LazyList import LazyList
 
-    return LazyList(iter([2 ** i for i in range(1, n + 1)]))
+    return LazyList(iter([item(i) for i in range(1, n + 1)]))
 
 
 def _E():
@@ -226,8 +234,8 @@ def check(part, names, n, mode, cat):
     status, pulls, val, bound, budget = run_pipeline(names, n, mode, cat)
     part.count()
     part.outcome((names[-1], status, min(pulls, 50)))
-    case = {"pipeline": list(names), "n": n, "take": mode}
-    tags = {"last": names[-1], "first": names[0], "take": mode, "depth": len(names)}
+    case = {"pipeline": list(names), "n": n, "take": mode, "source": KIND[0]}
+    tags = {"last": names[-1], "first": names[0], "take": mode, "depth": len(names), "source": KIND[0]}
     size = len(names) * 1000 + n
     if status == "timeout":
         part.cap("watchdog (pure CPU loop?) " + " ; ".join(names) + " n=%d" % n)
@@ -238,7 +246,10 @@ def check(part, names, n, mode, cat):
         # if even that cannot deliver the requested items, the pipeline needs unboundedly many source items by definition
         # (e.g. uniquify of a constant stream) - out of domain.  A transformation that merely forces its input still
         # delivers on the finite twin, so it is still reported.
-        tstatus, tval = run_twin(names, n, mode, cat, budget)
+        # Only a VALUE-DEPENDENT stage (flags vd / src) can legitimately lack the prefix; for every other pipeline the output rate does
+        # not depend on the values, so the twin (which runs the same library code) is not consulted.
+        value_dependent = any(("vd" in cat[nm][3] or "src" in cat[nm][3]) for nm in names)
+        tstatus, tval = run_twin(names, n, mode, cat, budget) if value_dependent else ("not consulted", None)
         short = tstatus == "ok" and ((mode == "slice" and isinstance(tval, list) and len(tval) < n) or tval == ("no item",))
         if short:
             part.skip("the requested prefix does not exist within the fuel budget even on a finite list (value-dependent pipeline)")
@@ -275,6 +286,16 @@ def _shard(args):
         for n in ns:
             for mode in ("slice", "index", "getitem"):
                 check(part, names, n, mode, cat)
+        # the arithmetic source 1,2,3,... (constant differences, zero second differences, repeated / falsy items downstream): only for
+        # pipelines whose output rate cannot depend on the values
+        if not any(("vd" in cat[nm][3] or "src" in cat[nm][3]) for nm in names):
+            KIND[0] = "counting"
+            try:
+                for n in [k for k in ns if k in (0, 1, 2, 5, 17)]:
+                    for mode in ("slice", "getitem"):
+                        check(part, names, n, mode, cat)
+            finally:
+                KIND[0] = "powers"
         part.nontriv()
     return part.data()
 
@@ -291,15 +312,15 @@ def run(tier, seed):
         explore.pmap(_shard, [(c, [0, 1, 2, 3, 5, 8, 13, 21, 40]) for c in explore.chunks(p3, 256)], rep, seed)
     else:
         core = [n for n in names if n in ("map(M)", "filter(F) alternating", "windows(l 2)", "chunks(ẇ 2)", "slice from(ȯ 2)",
-                                          "head remove(Ḣ)", "prefixes(K)", "flatten(f) of pairs", "cumulative sums(¦)", "deep copy")]
+                                          "head remove(Ḣ)", "prefixes(K)", "flatten(f) of pairs", "cumulative sums(¦)", "deep copy", "deltas(¯)")]
         p3 = [(a, b, c) for a in core for b in core for c in core]
         explore.pmap(_shard, [(c, [0, 1, 2, 5, 17]) for c in explore.chunks(p3, 64)], rep, seed)
     rep.extra["catalogue"] = {k: "pulls(m) <= %d*m + %d %s" % (v[1], v[2], v[3]) for k, v in cat.items()}
     rep.rule = ("%d catalogued transformations; all compositions of length 1 and 2 for ALL n in 0..40, taking the prefix by [0:n] and by "
-                "[n]; compositions of length 3 (%s) for selected n. Source: instrumented infinite generator that counts pulls and "
+                "[n]; compositions of length 3 (%s) for selected n. Source: instrumented infinite generator (2,4,8,...; and 1,2,3,... for pipelines without a value-dependent stage, n in {0,1,2,5,17}) that counts pulls and "
                 "raises past 4*bound+64 (fuel, not time). Oracles: returns; pulls <= composed fixed linear bound; equals the same "
                 "pipeline on a finite list. distinct_nontrivial = distinct pipelines." % (
-                    len(cat), "all" if tier == "thorough" else "over 10 core transformations"))
+                    len(cat), "all" if tier == "thorough" else "over 11 core transformations incl. deltas (whose second application yields a constant-zero stream)"))
     rep.sample({"pipeline": ["filter(F) alternating", "windows(l 2)"], "n": 5, "take": "slice", "bound": compose_bound(["filter(F) alternating", "windows(l 2)"], cat, 5)})
     rep.sample({"pipeline": ["prefixes(K)"], "n": 40, "take": "index"})
     rep.sample({"pipeline": ["map(M)", "chunks(ẇ 2)", "head remove(Ḣ)"], "n": 17, "take": "slice"})
@@ -311,5 +332,6 @@ def run(tier, seed):
 def replay(art):
     c = art["case"]
     part = explore.Partial()
+    KIND[0] = c.get("source", "powers")
     check(part, tuple(c["pipeline"]), c["n"], c["take"], catalogue())
     return part.d["violations"] or None
